@@ -145,7 +145,7 @@ Proof.
   unfold g_steps_exact in H. rewrite forallb_forall in H. apply Nat.eqb_eq, H, He.
 Qed.
 
-(* what g_steps_exact means: outside D111 (no plain delay shares its (merged) source variable with a spread edge, or the repair is in)
+(* what g_steps_exact means: outside D114 (no plain delay shares its (merged) source variable with a spread edge, or the repair is in)
    and inside the property's scope (plain delays of at least two steps) the compiled discrete delays are the specified ones *)
 Lemma list_max_ge' l x : In x l -> (x <= list_max l)%nat.
 Proof.
@@ -194,6 +194,13 @@ Theorem gfull_scope c n : gwf c = true -> g_above_step c = true -> g_rates_exact
 Proof.
   intros Hwf Ha Hr Hs. unfold gimpl_run, gspec_run. rewrite gcrashes_never, (params_agree_scope c Hwf Ha Hr), (steps_agree c Hs).
   change (impl_srcs c) with (spec_srcs c). reflexivity.
+Qed.
+
+(* with fixed_mixed_kinds on, the only thing g_steps_exact asks for is the property's own scope: plain delays of >= 2 steps *)
+Theorem gfull_scope_only c n : gwf c = true -> g_above_step c = true -> g_rates_exact c = true -> g_plain_ge2 c = true ->
+  gimpl_run c n = Ok (gspec_run c n).
+Proof.
+  intros Hwf Ha Hr Hp. apply gfull_scope; try assumption. apply steps_exact_of_guards; [reflexivity|exact Hp].
 Qed.
 
 Theorem gimpl_refines_spec c n : gwf c = true -> gguards c = true -> gimpl_run c n = Ok (gspec_run c n).
